@@ -67,6 +67,8 @@ Definition step14 (nps : list nat) (s : s14) (e : entry) : option s14 :=
           if (w' =? w) && Nat.eqb p k && (d =? dt)
           then Some {| a_prev := prev; a_mode := MFrame w h dt (S k) |} else None
       | EPoke _ _ _ | EEv _ _ | ELoad _ _ => Some s
+      | ECoro w' _ =>                 (* the coroutines of the world run after its processors *)
+          if Nat.eqb k (np_of nps h) && (w' =? w) then Some s else None
       | EAct o a w' h' =>
           if Nat.ltb 0 k then
             if is_callback o then act14' s a w' h'     (* a callback run by a direct switch *)
